@@ -304,6 +304,51 @@ def extra_obligations(mods, tier, seed):
         out.append({"name": f"C16/arms/{name}/literal-behaves-like-variable", "status": "discharged" if okv else "sat", "backend": "enum+fwsim", "bounded": True,
                     "where": f"{name}: literal and variable argument give the same tone/delay trace [{verdict}]", "time": 0.2,
                     "replay": {"literal_script": a[-160:], "detail": detail}, "replay_confirmed": not okv})
+    # a buzzer call sounds on the pin its object was declared with at that point of the program (a name re-bound to another pin)
+    PINS = {"redeclared-on-another-pin": "bz = Buzzer(8)\nbz.play_tone(440, 10)\nbz = Buzzer(9)\nbz.play_tone(330, 10)\nbz.beep(500, on_ms=5, off_ms=5, times=1)\n",
+            "redeclared-in-main-loop": "bz = Buzzer(8)\nwhile True:\n    bz.play_tone(440, 10)\n    bz = Buzzer(9)\n    bz.play_tone(330, 10)\n    bz = Buzzer(8)\n    sleep(5)\n",
+            "two-buzzers-swapping-names": "a = Buzzer(4)\nb = Buzzer(5)\na.play_tone(100, 5)\nb.play_tone(200, 5)\na = Buzzer(5)\nb = Buzzer(4)\na.play_tone(300, 5)\nb.play_tone(400, 5)\n"}
+    for pname, body in PINS.items():
+        from progs.diff import transpile as _tr
+        from fwsim.run import run_sketch as _run
+        want = []
+
+        class _Bz:
+            def __init__(self, pin=8, *a, **k):
+                self.pin = pin
+
+            def play_tone(self, f, d=None):
+                want.append(f"T:{self.pin}:{int(f)}")
+
+            def beep(self, f=None, **k):
+                want.extend([f"T:{self.pin}:{int(f)}"] * int(k.get("times", 1)))
+
+        class _Stop(Exception):
+            pass
+        cnt = {"k": 0}
+
+        def _sleep(ms):
+            cnt["k"] += 1
+            if cnt["k"] >= 2:
+                raise _Stop()
+        try:
+            exec(compile(body, "<pins>", "exec"), {"Buzzer": _Bz, "sleep": _sleep})
+        except _Stop:
+            pass
+        cpp, err = _tr("from Reduino.Actuators import Buzzer\nfrom Reduino.Utils import sleep\n" + body)
+        prob = None
+        if cpp is not None:
+            r = _run(cpp, passes=2)
+            if not r.get("compiled"):
+                prob = "does not compile: " + r.get("errors", "")[-200:]
+            else:
+                got = [e for e in r["events"] if e.startswith("T:")]
+                if got != want:
+                    k = next((i for i, (x, y) in enumerate(zip(got, want)) if x != y), min(len(got), len(want)))
+                    prob = f"tone #{k}: firmware {got[k:k + 3]}, the program says {want[k:k + 3]} (pin:frequency)"
+        out.append({"name": f"C16/exec/declared-pin/{pname}", "status": "discharged" if not prob else "sat", "backend": "enum+fwsim", "bounded": True,
+                    "where": f"script '{pname}': every tone sounds on the pin its buzzer was declared with at that point of the program", "time": 0.3,
+                    "replay": {"script": body, "problem": prob}, "replay_confirmed": bool(prob)})
     # the way an argument is WRITTEN does not matter: the same value written as a name, in parentheses, through abs()/int()/max() or as
     # arithmetic gives the same tone / delay trace (a call the statement recogniser does not match must not vanish)
     jobs = []
